@@ -12,9 +12,15 @@ SEED = int(sys.argv[2]) if len(sys.argv) > 2 else 1
 NAMES = ["a", "b c", "é", "x.txt", "sub", "deep", "Z", "ünï", "f1", "link", "..data", "...", ".hidden"]
 
 
+VARIANT = {"slash": False, "callback": False}      # per round: source directory given with a trailing '/', progress callback registered
+
+
 class Rep(RSync):
-    def __init__(self, *a, **k):
-        super().__init__(*a, verbose=False, **k)
+    def __init__(self, src, *a, **k):
+        self.events = []
+        if VARIANT["callback"]:
+            k["callback"] = lambda *ev: self.events.append(ev[:2])
+        super().__init__(src + os.sep if VARIANT["slash"] else src, *a, verbose=False, **k)
         self.sent = []
 
     def _report_send_file(self, gateway, modified_rel_path):
@@ -187,6 +193,7 @@ try:
         except OSError:
             cwd = work
             os.chdir(work)
+        VARIANT["slash"], VARIANT["callback"] = r % 3 == 1, r % 2 == 1
         rs = Rep(src)
         for gw, d in zip(gws, dsts):
             rs.add_target(gw, d, delete=delete) if delete else rs.add_target(gw, d)
@@ -210,7 +217,11 @@ try:
         rs2 = Rep(src)
         for gw, d in zip(gws, dsts):
             rs2.add_target(gw, d, delete=delete) if delete else rs2.add_target(gw, d)
-        rs2.send()
+        try:
+            rs2.send()
+        except Exception as e:
+            bad.append(f"round {r}: re-sync of an unchanged tree: send() raised {type(e).__name__}: {e!s:.80}" + (" (progress callback registered)" if VARIANT["callback"] else ""))
+            continue
         n += 1
         if rs2.sent:
             bad.append(f"round {r}: re-sync of an unchanged tree transferred {rs2.sent[:3]}")
@@ -227,7 +238,11 @@ try:
             rs3 = Rep(src)
             for gw, d in zip(gws, dsts):
                 rs3.add_target(gw, d)
-            rs3.send()
+            try:
+                rs3.send()
+            except Exception as e:
+                bad.append(f"round {r} after a mode-only change: send() raised {type(e).__name__}: {e!s:.80}")
+                continue
             n += 1
             for t, d in enumerate(dsts):
                 for b in compare(src, d, False, {})[:2]:
@@ -240,7 +255,11 @@ try:
             rs4 = Rep(src)
             for gw, d in zip(gws, dsts):
                 rs4.add_target(gw, d)
-            rs4.send()
+            try:
+                rs4.send()
+            except Exception as e:
+                bad.append(f"round {r} after touch + chmod: send() raised {type(e).__name__}: {e!s:.80}")
+                continue
             n += 1
             if os.path.getsize(f2) and os.path.relpath(f2, src).replace(os.sep, "/") in rs4.sent:
                 bad.append(f"round {r}: touching {os.path.relpath(f2, src)!r} without changing its content transferred the content again")
